@@ -87,7 +87,8 @@ def run(tier, replay=None):
             pick = pick + deep
             vectors = []
             for i, r in enumerate(pick):
-                variant = {'split': rng.choice([0, 0, 1, 2]), 'imp': rng.choice(['from', 'import', 'star']), 'main': rng.choice(['from', 'import', 'star'])}
+                variant = {'split': rng.choice([0, 0, 1, 2]), 'imp': rng.choice(['from', 'import', 'star']), 'main': rng.choice(['from', 'import', 'star']),
+                           'names': rng.choice(['plain', 'plain', 'dunder'])}
                 vectors.append([i, r, variant])
         n = core.NCPU
         jobs = [{'vectors': vectors[k::n], 'base': os.path.join(wd, 'fs%d' % k)} for k in range(n)]
